@@ -138,6 +138,53 @@ def check_output(v, case, lazy_p, eager_p, llog, elog, out, K, ctx, use_dag):
         v.bad("dag:nodes-vs-reference", f"function nodes: extra={extra} missing={miss}", **w)
 
 
+def cross_context(v, case, lazy_p, llog, out1, K1, out2, K2, root, first_in_dag):
+    """A deferred result built earlier (outside any construct_dag(), or inside an earlier one) is passed as an INPUT
+    VALUE to a lazy call inside a new construct_dag(): the new graph must stay acyclic, have exactly one edge per
+    producer-consumer dependency (the earlier deferred object counts as a producer) and evaluate to the reference."""
+    import networkx as nx
+
+    from pipefunc.lazy import construct_dag
+
+    w = dict(case=daggen.describe(case), first=[out1, K1], second=[out2, K2], via_root=root, first_inside_a_dag=first_in_dag)
+    try:
+        ref1 = daggen.ref_eval(case, out1, K1)
+        ref2 = daggen.ref_eval(case, out2, {**K2, root: ref1["value"]})
+    except daggen.Missing:
+        return
+    if isinstance(ref1["value"], tuple) or (set(K2) | {root}) - ref2["used"]:
+        return
+    probes.log_clear(llog)
+    try:
+        with quiet():
+            if first_in_dag:
+                with construct_dag():
+                    r1 = lazy_p(out1, **K1)
+            else:
+                r1 = lazy_p(out1, **K1)
+            with construct_dag() as dag2:
+                r2 = lazy_p(out2, **{**K2, root: r1})
+            got = r2.evaluate()
+    except Exception as e:  # noqa: BLE001
+        v.bad(exc_sig(e, "cross-context"), f"lazy call with an earlier deferred object as input raised {exc_msg(e)}", **w)
+        return
+    v.count("cross_context_graphs")
+    if got != ref2["value"]:
+        v.bad("cross-context:value", f"evaluate()={got!r:.200}, reference {ref2['value']!r:.200}", **w)
+    g = dag2.graph
+    if not nx.is_directed_acyclic_graph(g):
+        v.bad("cross-context:cycle", f"task graph with an earlier deferred object as input is cyclic: edges={sorted(g.edges)}", **w)
+        return
+    ndeps = sum(len(_lazy_children(lf)) for lf in dag2.mapping.values())
+    if g.number_of_edges() != ndeps:
+        v.bad("cross-context:edge-count", f"{g.number_of_edges()} edges recorded for {ndeps} producer-consumer dependencies: {sorted(g.edges)}", **w)
+    # ids of registered nodes must be distinct from the id the earlier object is known by (no aliasing): every node
+    # with an outgoing edge that is not in the mapping must be exactly one external producer
+    external = {a for a, b in g.edges if a not in dag2.mapping}
+    if len(external) != 1:
+        v.bad("cross-context:external-producer", f"expected exactly one producer outside this graph's mapping, found {sorted(external)}", **w)
+
+
 def run_case(desc):
     v = V()
     keys, sample = [], None
@@ -167,6 +214,18 @@ def run_case(desc):
                     check_output(v, case, lazy_p, eager_p, llog, elog, out, K2, "intermediate", rng.random() < 0.5)
                 if isinstance(out, str) and len(daggen.needed_funcs(case, [out])) >= 2:
                     keys.append(daggen.signature(case) + "|" + out)
+            # an earlier deferred result as input value of a later lazy call
+            singles = [o for o in daggen.all_outputs(case)]
+            for _ in range(2):
+                out1, out2 = rng.choice(singles), rng.choice(singles)
+                r2 = sorted(daggen.needed_roots(case, out2))
+                if not r2:
+                    continue
+                root = rng.choice(r2)
+                K1 = {r: f"v_{r}" for r in daggen.needed_roots(case, out1)}
+                K2 = {r: f"w_{r}" for r in r2 if r != root}
+                # the root must really be consumed as a keyword (not shadowed by a bound value everywhere)
+                cross_context(v, case, lazy_p, llog, out1, K1, out2, K2, root, first_in_dag=rng.random() < 0.5)
             if sample is None and len(case["funcs"]) >= 3 and i % 100 == 0:
                 o = daggen.all_outputs(case)[-1]
                 sample = {"case": daggen.describe(case), "output": o,
@@ -180,6 +239,8 @@ def finalize(agg, tier, seed):
         floors.append(f"only {agg.classes.get('shared_node_fanout>=2', 0)} DAGs with a shared node of fan-out >= 2 (< 300)")
     if agg.classes.get("tuple_interior", 0) < 300:
         floors.append(f"only {agg.classes.get('tuple_interior', 0)} DAGs with a tuple-output interior node (< 300)")
+    if agg.counters.get("cross_context_graphs", 0) < 300:
+        floors.append("fewer than 300 cross-context task graphs checked")
     if agg.counters.get("task_graphs_checked", 0) < 1000:
         floors.append("fewer than 1000 task graphs checked")
     return floors, {}
